@@ -26,7 +26,7 @@ def TOk (progs : List (List Rec)) (log : List (Nat × Rec)) (j : Nat) (t : Threa
   (match t.pc with
    | .idle => (log.filter (fun e => e.1 == j)).map (·.2) = t.acked
    | .writing r dn rest =>
-     (log.filter (fun e => e.1 == j)).map (·.2) = t.acked ∧ (∃ tl, t.todo = r :: tl) ∧ r = dn ++ rest
+     (log.filter (fun e => e.1 == j)).map (·.2) = t.acked ∧ (∃ tl, t.todo = r :: tl) ∧ [encBytes r] = dn ++ rest
    | .flushed r => (log.filter (fun e => e.1 == j)).map (·.2) = t.acked ++ [r] ∧ (∃ tl, t.todo = r :: tl))
 
 /-- what the lock protects -/
@@ -182,6 +182,7 @@ theorem CInv.step {progs : List (List Rec)} {init0 : Bytes} {s s' : CState} {i :
             subst hrest
             simp only [List.append_nil] at hr
             subst hr
+            simp only [List.flatten_cons, List.flatten_nil, List.append_nil] at hpb
             simp only [CState.committed] at hdisk ⊢
             simp only [BufFile.flush_disk, hdisk, List.map_append, List.flatMap_append, List.map_cons,
               List.map_nil, List.flatMap_cons, List.flatMap_nil, List.append_nil, encBytes,
